@@ -11,6 +11,7 @@ CONSTANTS
   MaxPeer = 4
   MaxPush = 1
   Faults = {"sendErr"}
+  MaxFaults = 1
   RespShapes <- RS_gen
   Abandon = FALSE
   MaxArr = 3
